@@ -217,7 +217,22 @@ def _anc(node, stop):
 def layout_facts(ctx):
     g = ctx.tree.text(LARK)
     ign = set(x.strip() for x in re.findall(r"^%ignore\s+(.+?)\s*$", g, re.M))
-    ctx.check("C13.layout", LARK, "grammar", "%ignore blanks", '" "' in ign, "single blanks are %%ignore'd (found %s)" % sorted(ign))
+    def _ign_matches(ch):
+        for it in ign:
+            if it.startswith('"') and it.endswith('"') and it[1:-1] == ch:
+                return True
+            if it.startswith("/") and it.rstrip("imslux").endswith("/"):
+                body = it[1:it.rstrip("imslux").rindex("/")]
+                try:
+                    if re.fullmatch(body, ch):
+                        return True
+                except re.error:
+                    pass
+        return False
+    ctx.check("C13.layout", LARK, "grammar", "%ignore blanks", _ign_matches(" "), "single blanks are %%ignore'd (found %s)" % sorted(ign))
+    ctx.check("C13.layout", LARK, "grammar", "%ignore tabs", _ign_matches("\t"),
+              "a TAB between tokens / at the end of a line is ignored like a blank" if _ign_matches("\t") else
+              "only the space character is %%ignore'd (%s): trailing whitespace that contains a TAB (`$x = 1<TAB>`, `flow main<TAB>`) makes the file fail to parse" % sorted(ign))
     ctx.check("C13.layout", LARK, "grammar", "%ignore COMMENT", "COMMENT" in ign, "end-of-line comments are %ignore'd")
     m = re.search(r"^_NEWLINE\s*:\s*(.*)$", g, re.M)
     ok = bool(m) and re.search(r"\)\+\s*$", m.group(1).strip()) is not None and "[\\t ]*" in m.group(1)
@@ -244,11 +259,67 @@ def layout_facts(ctx):
     ctx.floor("C13.layout", P2, "pre-parsing rewrite patterns", len(pats), 1)
     for c in pats:
         pat = c.args[0].value
-        anchored = pat.endswith("$") and not re.search(r"\\s\*(\(#.*\)\?)?\$$", pat) or src(c.func) == "re.fullmatch"
-        ctx.check("C13.layout", P2, "_apply_pre_parsing_expansions", "pattern %r" % pat, not anchored,
-                  "the pre-parsing pattern is not anchored at the end of the raw line (trailing blanks / an end-of-line comment do not change what it rewrites)" if not anchored else
-                  "the pre-parsing pattern %r is anchored at the end of the RAW line: trailing whitespace or an end-of-line comment (layout only) stop the rewrite and the file no longer parses the same" % pat,
-                  line=c.lineno)
+        # constant evaluation of the literal pattern on probe lines: the statement alone, and the same statement followed by layout only
+        bad = None
+        try:
+            rx = re.compile(pat)
+            base = [l for l in ("    ...", "  ...", "        ...") if rx.search(l)]
+            if not base:
+                raise AnalysisError("pre-parsing pattern %r matches none of the probe lines" % pat, anchor=P2 + "::_apply_pre_parsing_expansions::pattern")
+            for b in base:
+                for tail in ("", "   ", "\t", " # comment", "# comment", "  # c  "):
+                    line = b + tail
+                    left = rx.sub("\x00", line, count=1)
+                    if "\x00" not in left:
+                        bad = "%r is not rewritten" % line
+                    elif left.replace("\x00", "").strip() != "":
+                        bad = "%r is rewritten but %r is left behind on the line" % (line, left.replace("\x00", "").strip())
+                    if bad:
+                        break
+                if bad:
+                    break
+        except re.error:
+            bad = "pattern does not compile"
+        ctx.check("C13.layout", P2, "_apply_pre_parsing_expansions", "pattern %r" % pat, bad is None,
+                  "the pre-parsing rewrite consumes the statement together with trailing blanks and an end-of-line comment (probe lines evaluated against the literal pattern)" if bad is None else
+                  "the pre-parsing pattern %r mishandles layout after the statement: %s - the rewrite runs on RAW lines before comments are ignored, so the leftover ends up on a line of its own with an "
+                  "arbitrary indentation and the file no longer parses the same" % (pat, bad), line=c.lineno)
+    # the docstring state must not depend on what follows the closing quotes on the same line
+    strip_ends = [x for x in ast.walk(pre) if isinstance(x, ast.Call) and isinstance(x.func, ast.Attribute) and x.func.attr in ("endswith", "startswith") and x.args and
+                  isinstance(x.args[0], ast.Constant) and x.args[0].value == '"""']
+    counts = [x for x in ast.walk(pre) if isinstance(x, ast.Call) and isinstance(x.func, ast.Attribute) and x.func.attr == "count" and x.args and isinstance(x.args[0], ast.Constant) and x.args[0].value == '"""']
+    if strip_ends or counts:
+        ok_d = bool(counts) and not any(x.func.attr == "endswith" for x in strip_ends)
+        ctx.check("C13.layout", P2, "_apply_pre_parsing_expansions", "docstring tracking", ok_d,
+                  "docstring state is derived from the number of triple quotes on the line" if ok_d else
+                  "docstring state is derived from whether the stripped line ENDS with triple quotes: an end-of-line comment after a docstring leaves the state `in docstring` for the rest of the file and later `...` "
+                  "statements are not expanded", line=(strip_ends[0].lineno if strip_ends else pre.lineno))
+    # a comment on an otherwise blank line is layout: the newline terminal must swallow it (constant evaluation of the terminal's regex)
+    nlr = re.search(r"^_NEWLINE\s*:\s*\(/(.+?)/\)\+\s*$", g, re.M)
+    if nlr:
+        try:
+            rx = re.compile("(?:%s)+" % nlr.group(1))
+            probe = "\n    # a comment line\n    "
+            whole = rx.fullmatch(probe) is not None
+        except re.error:
+            whole = False
+        ctx.check("C13.layout", LARK, "grammar", "_NEWLINE swallows comment-only lines", whole,
+                  "a blank line that carries only a comment is part of ONE _NEWLINE token" if whole else
+                  "_NEWLINE (%s) stops at a `#`: a comment-only line reaches the indenter as two _NEWLINE tokens - the comment's own indentation is taken as real (UnexpectedToken/DedentError when it differs from the block), "
+                  "and where it parses an empty extra statement is inserted into the flow" % nlr.group(1))
+    # expressions are recovered as raw source slices: layout inside a bracketed multi-line expression becomes part of the parsed value
+    TRF = "nemoguardrails/colang/v2_x/lang/transformer.py"
+    tt = ctx.tree.ast(TRF)
+    raw = []
+    for f_ in functions(tt):
+        for r_ in [r for r in ast.walk(f_) if isinstance(r, ast.Return)]:
+            for sub in ast.walk(r_):
+                if isinstance(sub, ast.Subscript) and src(sub.value) == "self.source" and isinstance(sub.slice, ast.Slice) and "start_pos" in src(sub.slice) and f_.name in ("_expr", "_test", "expr", "test"):
+                    raw.append((f_, r_))
+    ctx.check("C13.layout", TRF, "ColangTransformer", "expression text is layout-free", not raw,
+              "expression elements are built from normalised text" if not raw else
+              "%s return the RAW source slice of an expression (`self.source[start_pos:end_pos]`): blank lines, trailing blanks, comments and indentation inside a multi-line `[..]`/`{..}`/`(..)` become part of the "
+              "parsed expression string (and a `{...}` inside such a comment is later evaluated as an expression)" % sorted({f.name for f, _ in raw}), line=(raw[0][1].lineno if raw else 1))
     t = ctx.tree.ast(LOAD)
     ok = any(isinstance(c, ast.Call) and src(c.func) == "Lark" and any(k.arg == "postlex" and "PythonIndenter" in src(k.value) for k in c.keywords) for c in ast.walk(t))
     ctx.check("C13.layout", LOAD, "load_lark_parser", "postlex=PythonIndenter()", ok, "indentation is delegated to lark's PythonIndenter (compares indentation widths only: scale-free)")
